@@ -278,7 +278,7 @@ func checkC16Cuts(job *Job, res *Result) {
 }
 
 func checkC16Bad(job *Job, res *Result) {
-	res.Rule = "SEQ over inputs: all byte strings of length <= L (quick 4, thorough 5) over {* $ 1 2 - CR LF space \" G P a NUL} 10 HTTP request lines x 101 header-line forms x 3 terminations, 220 inputs with array counts / bulk lengths / native lengths / Content-Length at the integer-type boundaries, and every catalogue command shape with one argument deleted / duplicated / emptied / (if numeric) replaced by 14 boundary numbers, each on its own connection of a live server next to a bystander connection; distinct = distinct (input class, reaction)"
+	res.Rule = "SEQ over inputs: all byte strings of length <= L (quick 4, thorough 5) over {* $ 1 2 - CR LF space \" G P a NUL} 10 HTTP request lines x 101 header-line forms x 3 terminations, 220 inputs with array counts / bulk lengths / native lengths / Content-Length at the integer-type boundaries, and every catalogue command shape with one argument deleted / duplicated / emptied / (if numeric) replaced by 14 boundary numbers, each on its own connection of a live server next to a bystander connection; every catalogue shape once more on a server started without an append-only file; distinct = distinct (input class, reaction)"
 	maxLen := 4
 	if job.Tier == "thorough" {
 		maxLen = 5
@@ -463,6 +463,46 @@ func checkC16Bad(job *Job, res *Result) {
 	})
 	if x.Err != "" {
 		res.Violate("C16/hang:bad-input", x.Err, nil)
+	}
+	// ---- the catalogue once more on a server that keeps no log (AppendOnly off): every
+	// command must be answered, none may take the process down
+	if job.Shard == 0 && job.Replay == nil {
+		names, _ := catalogueNames("")
+		cat := catalogue()
+		x2 := runExec(job, freezeAllBut(), func(x *Exec) {
+			in := x.Start("N", x.dir+"/N", 9005, func(o *Options) { o.AppendOnly = false })
+			c0 := x.Dial(in.Addr)
+			sha := catSetup(c0)
+			for _, name := range names {
+				if name == "FOLLOW" || name == "SLAVEOF" || name == "REPLCONF" || name == "SHUTDOWN" || name == "QUIT" || name == "CONFIG REWRITE" {
+					continue
+				}
+				for si, shape := range cat[name] {
+					args := catSubst(shape, sha)
+					done := res.Pending("C16/server-crash:no-log-server:"+strings.ToLower(name), fmt.Sprintf("%v on a server started without an append-only file", args), map[string]any{"nolog": args})
+					c := x.Dial(in.Addr)
+					c.Send(respCmd(args...))
+					vsched.WaitUntilOr(func() bool { return c.c.Avail() > 0 || c.c.EOF() }, int64(5*stdtime.Second))
+					vsched.Quiesce()
+					c.c.Kill()
+					done()
+					res.Evaluations++
+					res.DistinctS(fmt.Sprint("nolog", name, si))
+					if len(vsched.Crashes) > 0 {
+						res.Violate("C16/server-crash:no-log-server:"+strings.ToLower(name), fmt.Sprintf("%v on a server started without an append-only file: %s\n%s", args, vsched.Crashes[0].Value, vclip(vsched.Crashes[0].Stack, 1200)), map[string]any{"nolog": args})
+						vsched.Crashes = nil
+						return
+					}
+					if r := c0.Do("PING"); r.String() != "+PONG" {
+						res.Violate("C16/bystander-affected:no-log-server:"+strings.ToLower(name), fmt.Sprintf("after %v the bystander's PING is answered %s", args, r), map[string]any{"nolog": args})
+						return
+					}
+				}
+			}
+		})
+		if x2.Err != "" {
+			res.Violate("C16/hang:no-log-server", x2.Err, nil)
+		}
 	}
 	res.Transitions += res.Evaluations
 	res.Validated += res.Evaluations
